@@ -11,6 +11,10 @@ package main
 //	                     destination parameter (`v` / `value`), with the constructor x comes from
 //	                     (x itself, or the right-hand side of the local assignment that defines x)
 //
+//	assignValueSetBytesSites / assignValueReuseSites  in every `AssignValue` method of type*.go: the
+//	                     constructor behind each `<dst>.SetBytes(x)`, and every call on the destination
+//	                     that exposes or resizes the memory a slice destination already has
+//
 // The Lean side (Props/FactsCheckC16.lean) requires the copied kinds to be exactly the kinds whose
 // Value holds a pointer, and every destination to be set from a constructor of fresh memory.
 
@@ -20,6 +24,7 @@ import (
 	"go/parser"
 	"go/token"
 	"path/filepath"
+	"sort"
 	"strings"
 )
 
@@ -186,6 +191,90 @@ func famFreshCopies(repo string) (string, error) {
 			sep = ""
 		}
 		fmt.Fprintf(&b, "  (%s, %s, %s)%s  -- row.go:%d\n", LeanString(s.fn), LeanString(s.ctor), LeanString(s.text), sep, s.line)
+	}
+	b.WriteString("]\n")
+	// ---- AssignValue methods of the leaf types (type*.go): how the byte-holding destinations are filled
+	files, err := filepath.Glob(filepath.Join(repo, "type*.go"))
+	if err != nil {
+		return "", err
+	}
+	sort.Strings(files)
+	// reflect.Value methods that expose or resize the memory a slice destination already has
+	reuse := map[string]bool{"Bytes": true, "SetLen": true, "SetCap": true, "Slice": true, "Slice3": true, "Cap": true,
+		"Index": true, "Pointer": true, "UnsafePointer": true, "Grow": true, "Extend": true}
+	var setBytes, reused []site
+	nAssign := 0
+	for _, file := range files {
+		if strings.HasSuffix(file, "_test.go") {
+			continue
+		}
+		tf, err := parser.ParseFile(fset, file, nil, parser.SkipObjectResolution)
+		if err != nil {
+			return "", err
+		}
+		for _, d := range tf.Decls {
+			fd, ok := d.(*ast.FuncDecl)
+			if !ok || fd.Body == nil || fd.Recv == nil || fd.Name.Name != "AssignValue" {
+				continue
+			}
+			if len(fd.Type.Params.List) == 0 || len(fd.Type.Params.List[0].Names) == 0 {
+				continue // unnamed parameters: the method cannot touch the destination
+			}
+			dst := fd.Type.Params.List[0].Names[0].Name
+			recv := strings.TrimPrefix(exprText(fset, fd.Recv.List[0].Type), "*")
+			nAssign++
+			ast.Inspect(fd.Body, func(x ast.Node) bool {
+				c, ok := x.(*ast.CallExpr)
+				if !ok {
+					return true
+				}
+				sel, ok := c.Fun.(*ast.SelectorExpr)
+				if !ok {
+					return true
+				}
+				id, ok := sel.X.(*ast.Ident)
+				if !ok || id.Name != dst {
+					return true
+				}
+				where := recv + ".AssignValue"
+				line := fset.Position(c.Pos()).Line
+				switch {
+				case sel.Sel.Name == "SetBytes" && len(c.Args) == 1:
+					ctor := exprText(fset, c.Args[0])
+					if call, ok := c.Args[0].(*ast.CallExpr); ok {
+						ctor = exprText(fset, call.Fun)
+					}
+					setBytes = append(setBytes, site{where, ctor, filepath.Base(file), line})
+				case reuse[sel.Sel.Name]:
+					reused = append(reused, site{where, sel.Sel.Name, filepath.Base(file), line})
+				}
+				return true
+			})
+		}
+	}
+	if nAssign == 0 {
+		return "", fmt.Errorf("type*.go: no AssignValue method found")
+	}
+	fmt.Fprintf(&b, "-- type*.go: number of AssignValue methods with a named destination parameter\ndef assignValueMethods : Nat := %d\n", nAssign)
+	b.WriteString("-- type*.go AssignValue: (method, constructor of the bytes) of every <dst>.SetBytes(x)\n")
+	b.WriteString("def assignValueSetBytesSites : List (String × String) := [\n")
+	for i, s := range setBytes {
+		sep := ","
+		if i == len(setBytes)-1 {
+			sep = ""
+		}
+		fmt.Fprintf(&b, "  (%s, %s)%s  -- %s:%d\n", LeanString(s.fn), LeanString(s.ctor), sep, s.text, s.line)
+	}
+	b.WriteString("]\n")
+	b.WriteString("-- type*.go AssignValue: (method, reflect method) of every call on <dst> that exposes or resizes the\n")
+	b.WriteString("-- memory a slice destination already has (Bytes, SetLen, SetCap, Slice, Slice3, Cap, Index, Pointer, UnsafePointer, Grow, Extend)\n")
+	b.WriteString("def assignValueReuseSites : List (String × String) := [\n")
+	for i, s := range reused {
+		sep := ","
+		if i == len(reused)-1 {
+			sep = ""
+		}
+		fmt.Fprintf(&b, "  (%s, %s)%s  -- %s:%d\n", LeanString(s.fn), LeanString(s.ctor), sep, s.text, s.line)
 	}
 	b.WriteString("]\n")
 	return b.String(), nil
